@@ -159,6 +159,8 @@ pub enum InstanceDelayNotifyRequest {
     ///更新实例心跳,用于http心跳接口
     UpdateInstanceBeat(Arc<Instance>),
     RemoveInstance(Arc<Instance>),
+    ///a copy from another node replaced (or removed) the instance: a heartbeat copy still queued here is out of date
+    ForgetInstanceBeat(InstanceKey),
 }
 
 pub enum InstanceDelayNotifyResponse {
@@ -184,6 +186,9 @@ impl Handler<InstanceDelayNotifyRequest> for ClusterInstanceDelayNotifyActor {
             }
             InstanceDelayNotifyRequest::RemoveInstance(instance) => {
                 self.delay_notify(instance, false);
+            }
+            InstanceDelayNotifyRequest::ForgetInstanceBeat(key) => {
+                self.beat_instances_map.remove(&key);
             }
         };
         Ok(InstanceDelayNotifyResponse::None)
